@@ -30,7 +30,7 @@ partial def loopStateful {σ} (h : IO.FS.Stream) (out : IO.FS.Stream) (st : σ)
   | some (st', s) => out.putStrLn s; loopStateful h out st' f
   | none => out.putStrLn "bad-op"; loopStateful h out st f
 
-def loopsStep_loop (i o : IO.FS.Stream) : IO Unit := loopStateful i o ([] : LNodes) loopsStep
+def loopsStep_loop (i o : IO.FS.Stream) : IO Unit := loopStateful i o (([], []) : LNodes × Nodes) mixedStep
 
 def main (args : List String) : IO UInt32 := do
   let stdin ← IO.getStdin
